@@ -122,6 +122,87 @@ def install(props, bus):
             return out
         ex.BaseStepper.__call__ = call
 
+    # ---------------------------------------------------------------- C03: alias-free oracle on every concrete call of a built-in nonlinear function
+    if "C03" in props:
+        from fractions import Fraction
+        from rv.refmodel import aliasfree as A
+        nfm = ex.nonlin_fun
+        FRACTION = {}
+        base_init = nfm.BaseNonlinearFun.__init__
+
+        def binit(self, num_spatial_dims, num_points, *, dealiasing_fraction=None):
+            base_init(self, num_spatial_dims, num_points, dealiasing_fraction=dealiasing_fraction)
+            FRACTION[id(self)] = dealiasing_fraction          # caller-side value, not the stored mask
+        nfm.BaseNonlinearFun.__init__ = binit
+        from exponax.stepper.reaction._cahn_hilliard import CahnHilliardNonlinearFun
+        from exponax.stepper.reaction._gray_scott import GrayScottNonlinearFun
+        cnt3 = {"n": 0}
+
+        def describe(obj):
+            n = type(obj).__name__
+            if n == "ConvectionNonlinearFun":
+                form = "conv_" + ("sc" if obj.single_channel else "mc") + ("_c" if obj.conservative else "_nc")
+                return form, dict(scale=float(obj.scale)), False
+            if n == "GradientNormNonlinearFun":
+                return "gradnorm", dict(scale=float(obj.scale), zero_mode_fix=bool(obj.zero_mode_fix)), False
+            if n == "PolynomialNonlinearFun":
+                return "poly", dict(coefficients=[float(c) for c in obj.coefficients]), False
+            if n == "VorticityConvection2d":
+                return "vort2d", dict(scale=float(obj.convection_scale)), False
+            if n == "ProjectedConvection3d":
+                return "rot3d", dict(), True
+            if n == "CahnHilliardNonlinearFun":
+                return "cahn_hilliard", dict(scale=float(obj.scale)), False
+            if n == "GrayScottNonlinearFun":
+                return "gray_scott", dict(feed_rate=float(obj.feed_rate), kill_rate=float(obj.kill_rate)), False
+            return None
+
+        def wrap_call(cls):
+            orig = cls.__call__
+
+            def call(self, u_hat):
+                out = orig(self, u_hat)
+                try:
+                    if type(self) is not cls or not _concrete(u_hat, out):
+                        return out
+                    cnt3["n"] += 1
+                    desc = describe(self)
+                    frac = FRACTION.get(id(self))
+                    D, N = self.num_spatial_dims, self.num_points
+                    if desc is None or frac is None or cnt3["n"] % 3 or N ** D > 5000 or N < 4:
+                        return out
+                    opname, params, project = desc
+                    uh = np.asarray(u_hat)
+                    if not np.all(np.isfinite(uh)) or not np.all(np.isfinite(np.asarray(out))):
+                        return out
+                    degree = len(params["coefficients"]) - 1 if opname == "poly" else (3 if opname in ("cahn_hilliard", "gray_scott") else 2)
+                    fr = Fraction(float(frac)).limit_denominator(1000)
+                    if degree >= 3 and fr > Fraction(1, 2) or degree == 2 and fr > Fraction(2, 3):
+                        bus.outside("ambient_alias_free", "fraction does not remove the aliasing of this degree (outside the property)")
+                        return out
+                    dop = np.asarray(self.derivative_operator) if hasattr(self, "derivative_operator") else None
+                    if dop is None and opname in ("cahn_hilliard",):
+                        lap = np.asarray(self.laplace_operator)
+                        L = float(2 * np.pi / np.sqrt(-lap[(0,) + (0,) * (D - 1) + (1,)].real))
+                    elif dop is None:
+                        L = 1.0          # no derivative in the operator: the extent does not enter
+                    else:
+                        L = float(2 * np.pi / abs(dop[(D - 1,) + (0,) * (D - 1) + (1,)].imag))
+                    K = A.documented_cutoff(N, fr)
+                    u = np.fft.irfftn(uh, s=(N,) * D, axes=tuple(range(-D, 0))).astype(np.float64)
+                    ref, S, mask = A.evaluate(opname, params, u, D, N, L, K, project=project)
+                    got = np.fft.fftn(np.fft.irfftn(np.asarray(out), s=(N,) * D, axes=tuple(range(-D, 0))), axes=tuple(range(-D, 0))) / N ** D
+                    eps = _eps(uh.dtype)
+                    err = float(np.max(np.abs(got - ref) * mask[None])) if mask.any() else 0.0
+                    bus.judge("ambient_alias_free", err, 512 * eps * (1 + np.log2((4 * N) ** D)) * S, (type(self).__name__, opname, D, N % 12, str(fr)),
+                              sample=dict(cls=type(self).__name__, op=opname, D=D, N=N, fraction=str(fr), params=params), witness=dict(cls=type(self).__name__, op=opname, D=D, N=N, L=L, fraction=str(fr), params=params, err=err, S=S))
+                except Exception as e:  # noqa: BLE001
+                    bus.error("ambient_alias_free", e)
+                return out
+            cls.__call__ = call
+        for cls in (nfm.ConvectionNonlinearFun, nfm.GradientNormNonlinearFun, nfm.PolynomialNonlinearFun, nfm.VorticityConvection2d, nfm.ProjectedConvection3d, CahnHilliardNonlinearFun, GrayScottNonlinearFun):
+            wrap_call(cls)
+
     # ---------------------------------------------------------------- C04: fft / ifft round trip on every concrete call of ex.fft
     if "C04" in props:
         import icontract
